@@ -137,8 +137,23 @@ def script(rng, n, used, kind):
             th.append(o)
     return th
 
+def gen_exhaustive_scripts(tier, rng):
+    """bounded-exhaustive single-goroutine scripts over the whole API, every adder kind: EVERY sequence up to the bound"""
+    import itertools
+    alpha = ["a3", "a-2", "i", "d", "s", "w5", "r", "q"]
+    out, n = [], 0
+    for kind in ["jdkadd", "jdkf", "rc", "atomic", "atomicf", "mutexadd"]:
+        maxlen = scale(tier, 3, 4) if kind != "rc" else scale(tier, 2, 3)     # 128-cell scans are long
+        for L in range(1, maxlen + 1):
+            for seq in itertools.product(alpha, repeat=L):
+                o = {"maxcells": 2} if kind in ("jdkadd", "jdkf") else {}
+                out.append(conc.Scn("e%d" % n, kind, rnd_words(rng, 8), [list(seq)], "dfs 0 1", o))
+                n += 1
+    return out
+
 def gen_c16(tier, rng):
     s = []
+    s += gen_exhaustive_scripts(tier, rng)
     kinds = ["jdkadd", "jdkf", "rc", "atomic", "atomicf", "mutexadd"]
     # single-threaded scripts over the whole API
     for i in range(scale(tier, 150, 2500)):
